@@ -1916,3 +1916,36 @@ func keepAltsRule(R string) RuleFunc {
 		c.Check(ok && n > 0, R, fn+":types", c.P.Pos(d.Decl.Pos()), "the `type` rule replaces n.types only when it is not \"mixed\" on a node with alternatives", "a `type: \"mixed\"` rule wipes the alternatives of a choice")
 	}
 }
+
+// commaResetRule: the comma of an object and the comma of an array treat the annotation flag alike.
+func commaResetRule(R string) RuleFunc {
+	return func(c *core.Ctx) {
+		c.Rule(R, "the end of a non-empty array clears allowAnnotation (no annotation on the line of a multi-element array). The flag is set again by the comma that separates the next element - in stateAfterArrayItem AND in stateAfterObjectValue, on the path outside annotations: the rows of the two sibling states for `,` carry the same store allowAnnotation=true. Otherwise the place of a line break around the comma decides whether the next property may be annotated (`[1,2]⏎ , \"b\": 3 // {...}` refused, `[1,2],⏎ \"b\": 3 // {...}` accepted)")
+		c.Floor(R, 2)
+		m := buildScanModel(c, "notations/jschema/scanner")
+		for _, st := range []string{"stateAfterArrayItem", "stateAfterObjectValue"} {
+			rows, ok := m.rows[st]
+			if !ok {
+				c.Unresolved(R, "notations/jschema/scanner."+st)
+				continue
+			}
+			good, seen := true, false
+			for _, p := range rows[','].paths {
+				if !hasAtom(p, "bin:==(0,load:&s.annotation)", true) {
+					continue
+				}
+				seen = true
+				set := false
+				for _, s := range p.stores {
+					if s == "allowAnnotation=true" {
+						set = true
+					}
+				}
+				if p.kind != "return" || !set {
+					good = false
+				}
+			}
+			c.Check(good && seen, R, "notations/jschema/scanner."+st+":comma", c.P.Pos(m.states[st].Pos()), st+" on `,` outside annotations: allowAnnotation=true", "the comma does not allow annotations again: after a non-empty array value the next element cannot be annotated when the comma stands on the next line")
+		}
+	}
+}
